@@ -149,25 +149,37 @@ def manufactured(rep, rng, n):
     for i in range(n):
         r = random.Random(rng.random())
         nv = r.randint(2, 4)
-        names = r.sample(["v10", "v2", "a", "b1", "x03", "x3", "zz", "m", "k9"], nv)
-        vs = [Variable(nm) for nm in names]
+        vector_family = (i % 2 == 1)          # every other problem is written with the vector API (reductions, views, c - f spellings)
+        if vector_family:
+            from optyx import VectorVariable
+            vec = VectorVariable(r.choice(["v", "x", "q"]), nv)
+            vs = list(vec)
+            names = [v.name for v in vs]
+        else:
+            vec = None
+            names = r.sample(["v10", "v2", "a", "b1", "x03", "x3", "zz", "m", "k9"], nv)
+            vs = [Variable(nm) for nm in names]
         a = np.array([r.choice([-1.0, 0.5, 2.0, 1.0, -0.5]) for _ in range(nv)])
         d = np.array([r.choice([1.0, 2.0, 0.5, 4.0]) for _ in range(nv)])
+        cl = np.array([0.25 * (k + 1) * (-1 if k % 2 else 1) for k in range(nv)]) if vector_family else np.zeros(nv)   # linear term, distinct weights
         kind = r.choice(["qp", "exp"])
-        cons_kind = layouts[i % len(layouts)]
+        cons_kind = layouts[(i // 2) % len(layouts)]
         mx = r.random() < 0.4
         def f_np(x, order):
             xa = np.array([x[order[nm]] for nm in names])
-            base = 0.5 * float(np.sum(d * (xa - a) ** 2)) + 3.0
+            base = 0.5 * float(np.sum(d * (xa - a) ** 2)) + 3.0 + float(cl @ xa)
             return base + (float(np.sum(np.exp(0.3 * xa))) if kind == "exp" else 0.0)
         def g_np(x, order):
             xa = np.array([x[order[nm]] for nm in names])
-            g = d * (xa - a) + (0.3 * np.exp(0.3 * xa) if kind == "exp" else 0.0)
+            g = d * (xa - a) + cl + (0.3 * np.exp(0.3 * xa) if kind == "exp" else 0.0)
             out = np.zeros(len(x))
             for k, nm in enumerate(names):
                 out[order[nm]] = g[k]
             return out
         expr = sum((0.5 * float(d[k]) * (vs[k] - float(a[k])) ** 2 for k in range(1, nv)), 0.5 * float(d[0]) * (vs[0] - float(a[0])) ** 2) + 3.0
+        if vector_family:
+            # the linear term over a REVERSED view that covers every variable of the problem (weights reversed to match)
+            expr = expr + r.choice([lambda: cl[::-1].copy() @ vec[::-1], lambda: vec[::-1] @ cl[::-1].copy(), lambda: cl @ vec])()
         if kind == "exp":
             expr = expr + sum((F.exp(0.3 * v) for v in vs[1:]), F.exp(0.3 * vs[0]))
         P = Problem()
@@ -184,11 +196,23 @@ def manufactured(rep, rng, n):
             for k, nm in enumerate(names):
                 out[order[nm]] = w[k]
             return out
+        if vector_family:
+            total = r.choice([lambda: vec.sum(), lambda: np.ones(nv) @ vec, lambda: vec[::-1].sum()])()
+            wexpr = r.choice([lambda: w @ vec, lambda: vec @ w, lambda: w[::-1].copy() @ vec[::-1]])()
+        def spell(f, sense, c):
+            """The same relation f (sense) c in the spellings a user may choose, incl. a constant MINUS the function."""
+            from optyx import Constant
+            k = r.randrange(5) if vector_family else 0
+            if sense == "==":
+                return [lambda: f.eq(c), lambda: (f - c).eq(0), lambda: (c - f).eq(0), lambda: (Constant(c) - f).eq(0), lambda: f.eq(c)][k]()
+            if sense == "<=":
+                return [lambda: f <= c, lambda: c >= f, lambda: c - f >= 0, lambda: Constant(c) - f >= 0, lambda: f - c <= 0][k]()
+            return [lambda: f >= c, lambda: c <= f, lambda: c - f <= 0, lambda: Constant(c) - f <= 0, lambda: f - c >= 0][k]()
         piece = {
-            "eq": (lambda: total.eq(s - 1.0), lambda o: {"type": "eq", "fun": lambda x: float(np.sum(x)) - (s - 1.0), "jac": lambda x: np.ones(len(x))}),
-            "ineq_active": (lambda: total <= s - 1.0, lambda o: {"type": "ineq", "fun": lambda x: (s - 1.0) - float(np.sum(x)), "jac": lambda x: -np.ones(len(x))}),
-            "ineq_inactive": (lambda: total <= s + 50.0, lambda o: {"type": "ineq", "fun": lambda x: (s + 50.0) - float(np.sum(x)), "jac": lambda x: -np.ones(len(x))}),
-            "w_active": (lambda: wexpr >= float(w @ a) + 0.8, lambda o: {"type": "ineq", "fun": lambda x: wdot(x, o) - (float(w @ a) + 0.8), "jac": lambda x: wjac(x, o)}),
+            "eq": (lambda: spell(total, "==", s - 1.0), lambda o: {"type": "eq", "fun": lambda x: float(np.sum(x)) - (s - 1.0), "jac": lambda x: np.ones(len(x))}),
+            "ineq_active": (lambda: spell(total, "<=", s - 1.0), lambda o: {"type": "ineq", "fun": lambda x: (s - 1.0) - float(np.sum(x)), "jac": lambda x: -np.ones(len(x))}),
+            "ineq_inactive": (lambda: spell(total, "<=", s + 50.0), lambda o: {"type": "ineq", "fun": lambda x: (s + 50.0) - float(np.sum(x)), "jac": lambda x: -np.ones(len(x))}),
+            "w_active": (lambda: spell(wexpr, ">=", float(w @ a) + 0.8), lambda o: {"type": "ineq", "fun": lambda x: wdot(x, o) - (float(w @ a) + 0.8), "jac": lambda x: wjac(x, o)}),
         }
         seq = {"none": [], "eq": ["eq"], "ineq_active": ["ineq_active"], "ineq_inactive": ["ineq_inactive"], "bounds_active": [], "bounds_inactive": [],
                "eq_then_ineq": ["eq", "w_active"], "ineq_then_eq": ["w_active", "eq"], "two_ineq": ["ineq_active", "w_active"]}[cons_kind]
@@ -301,7 +325,7 @@ def run(rep: vk.Report):
     for i in afails:
         rep.violation({"kind": "correspondence", "obligation": "x0 / bounds / jac / hess arguments = model", "case": args[i][:2000],
                        "witness": ameta[i]}, concrete=True)
-    tried, conv = manufactured(rep, rng, 18 if rep.tier == "quick" else 700)
+    tried, conv = manufactured(rep, rng, 28 if rep.tier == "quick" else 700)
     cov = rep.coverage
     cov["evaluations"] = len(nums) + len(args) + tried
     cov["distinct_nontrivial"] = len(set(nums)) + len(set(args))
